@@ -19,6 +19,7 @@ package namer
 import (
 	"fmt"
 	"path/filepath"
+	"sort"
 	"strconv"
 	"strings"
 
@@ -275,10 +276,8 @@ func (ns *NameStrategy) Name(t *types.Type) string {
 	case types.Interface:
 		// TODO: add to name test
 		names := []string{"Interface"}
-		for _, m := range t.Methods {
-			// TODO: include function signature
-			names = append(names, m.Name.Name)
-		}
+		// TODO: include function signature
+		names = append(names, sortedMethodNames(t)...)
 		name = ns.Join(ns.Prefix, names, ns.Suffix)
 	case types.Func:
 		// TODO: add to name test
@@ -296,6 +295,17 @@ func (ns *NameStrategy) Name(t *types.Type) string {
 	}
 	ns.Names[t] = name
 	return name
+}
+
+// sortedMethodNames returns the names of t's methods in a fixed order, so that
+// the name of an interface type does not depend on map iteration order.
+func sortedMethodNames(t *types.Type) []string {
+	names := make([]string, 0, len(t.Methods))
+	for _, m := range t.Methods {
+		names = append(names, m.Name.Name)
+	}
+	sort.Strings(names)
+	return names
 }
 
 // ImportTracker allows a raw namer to keep track of the packages needed for
@@ -367,11 +377,8 @@ func (r *rawNamer) Name(t *types.Type) string {
 		name = "chan " + r.Name(t.Elem)
 	case types.Interface:
 		// TODO: add to name test
-		elems := []string{}
-		for _, m := range t.Methods {
-			// TODO: include function signature
-			elems = append(elems, m.Name.Name)
-		}
+		// TODO: include function signature
+		elems := sortedMethodNames(t)
 		if len(elems) == 0 {
 			name = "any"
 		} else {
